@@ -273,7 +273,13 @@ DropCell(d) ==
   /\ relay' = IF Stage(d.dst, d) = "relay" /\ Has(relay[d.dst], relay[d.dst][d.cid].to)
               THEN [relay EXCEPT ![d.dst] = Put(@, relay[d.dst][d.cid].to, [@[relay[d.dst][d.cid].to] EXCEPT !.act = now])]
               ELSE relay
-  /\ UNCHANGED <<circ, exit, retryC, createdC, createC, pingC, pend, ctr, now, sweepAt, pingAt, hist, budget>>
+  \* a cell for an own circuit whose hop layers all verify counts as activity even if what is inside them is garbage (a
+  \* relay in front of the attacker wraps blindly): process_cell reaches its tail, only the message is not understood
+  /\ circ' = IF Stage(d.dst, d) = "local" /\ ~d.plain /\ Has(circ[d.dst], d.cid) /\ ~Has(exit[d.dst], d.cid)
+                 /\ LocalPeel(d.dst, d)[1] /\ LocalPeel(d.dst, d)[2] # <<>> /\ MaxEarly > 0
+              THEN [circ EXCEPT ![d.dst] = Beat(@, d.dst, d.cid)]
+              ELSE circ
+  /\ UNCHANGED <<exit, retryC, createdC, createC, pingC, pend, ctr, now, sweepAt, pingAt, hist, budget>>
 
 \* relay_cell: one layer peeled (forward) or added (backward), circuit id rewritten
 RelayCell(d) ==
